@@ -813,6 +813,8 @@ def cex_to_msg(spec, packet, cex):
     for f in packet.fields:
         sem = spec.resolve(f)
         v = cex.get(f.name)
+        if f.repeat and isinstance(v, dict) and 'bytes' in v:
+            v = list(bytes.fromhex(v['bytes']))          # a list of 8-bit scalars is concretised like a byte string
         if f.repeat:
             m.v[f.name] = [cex_elem(spec, sem, x) for x in (v or [])]
         elif sem[0] == 'match':
@@ -838,6 +840,8 @@ def msg_to_native(spec, packet, cex):
     for f in packet.fields:
         sem = spec.resolve(f)
         v = cex.get(f.name)
+        if f.repeat and isinstance(v, dict) and 'bytes' in v:
+            v = list(bytes.fromhex(v['bytes']))
 
         def one(x):
             if sem[0] in ('basic', 'lengthof', 'checksum'):
@@ -1287,12 +1291,15 @@ def main(prop, tier, update_known=False):
     protoc_rejects = []
     fev = collections.Counter()
     fev_bad = []
+    fev_err = []
     for r in results:
         for v in r.get('fe_validation') or []:
             k = 'skipped' if 'skipped' in v or 'error' in v else ('agree' if v.get('agree') else 'disagree')
             fev[(v['lang'] + '/' + v.get('op', '-'), k)] += 1
             if k == 'disagree':
                 fev_bad.append([r['prog'], v['lang'], v.get('front_end'), v.get('native')])
+            if 'error' in v and len(fev_err) < 5:
+                fev_err.append([r['prog'], v['error']])
     xs = []
     for r in results:
         xs.extend(r.get('xsamples') or [])
@@ -1438,7 +1445,7 @@ def main(prop, tier, update_known=False):
             'known_findings_seen': len(knowns), 'new_findings': nviol, 'unconfirmed_counterexamples': unconfirmed[:10],
             'cross_solver_diff': xres, 'shared_directory_runs_of_the_real_binary': shared_runs,
             'frontend_validation_vs_native': {'what': 'root packet, one pseudo-random concrete message per program: bytes computed by the front-end from the lowered emitted code vs bytes produced by the emitted code compiled and run natively with the reference runtime',
-                                              'counts': {'%s:%s' % k: v for k, v in sorted(fev.items())}, 'disagreements': fev_bad[:8]},
+                                              'counts': {'%s:%s' % k: v for k, v in sorted(fev.items())}, 'disagreements': fev_bad[:8], 'driver_errors': fev_err},
         },
         'assumptions': ASSUMPTIONS, 'wall_s': round(wall, 1), 'violations': nviol,
     }
